@@ -328,8 +328,14 @@ def main(argv=None):
                 name, sh.rc, tail(sh.logf)))
         shard_info.append(info)
 
+    seen_sig = set()
     for f in all_fail:
+        sig = json.dumps(flat_of(f), sort_keys=True, default=str)
         ent = [e for e in known_open if matches(e, flat_of(f))]
+        if not ent:
+            if sig in seen_sig:
+                continue
+            seen_sig.add(sig)
         if ent:
             e = ent[0]
             if e['id'] not in known_hits:
